@@ -325,6 +325,9 @@ pub fn run_history<H: ArchH>(rep: &mut Report, h: &Hist, hist_id: u64, all_gens:
     let mut impl_outs = vec!["ok".to_string()];
     let mut cmds = vec!["init".to_string()];
     let mut draws: Vec<u16> = vec![];
+    // C20, which miss category: what a slot certainly holds (set by a hit, forgotten by a miss,
+    // which may or may not have inserted something), per cache
+    let mut known_slot: BTreeMap<(String, u64), (u64, u16)> = BTreeMap::new();
     for (i, op) in h.ops.iter().enumerate() {
         let id = i as u64 + 1;
         let line = op.line(id);
@@ -375,6 +378,26 @@ pub fn run_history<H: ArchH>(rep: &mut Report, h: &Hist, hist_id: u64, all_gens:
                         add_oracle(rep, &["C20"], "hit-touches-sections",
                             format!("a call counted as hit dereferenced section data {} times", obs.section_touches),
                             context_of(&lines, here), &ans);
+                    }
+                    // the documented meaning of the counters, judged where the slot content is certain
+                    let la = if *is_ra { addr.wrapping_sub(1) } else { *addr };
+                    let gen = H::gen(&w.unws[u]);
+                    let cname = match op { Op::Unwind { c, .. } => c.clone(), _ => String::new() };
+                    let key = (cname, la % n_slots);
+                    if let Some((ka, kg)) = known_slot.get(&key).copied() {
+                        let expect = if kg != gen { 2 } else if ka != la { 3 } else { 0 };
+                        let names = ["hit", "miss_empty_slot", "miss_wrong_modules", "miss_wrong_address"];
+                        if d.iter().sum::<u64>() == 1 && d[expect] != 1 {
+                            let got = d.iter().position(|x| *x == 1).unwrap_or(0);
+                            add_oracle(rep, &["C20"], "wrong-statistics-category",
+                                format!("the slot holds the rule for address {ka:#x} cached under module generation {kg} (the previous call on this slot was a hit); this lookup of {la:#x} under generation {gen} must count as {} but counted as {}", names[expect], names[got]),
+                                context_of(&lines, here), &ans);
+                        }
+                    }
+                    if d[0] == 1 {
+                        known_slot.insert(key, (la, gen));
+                    } else {
+                        known_slot.remove(&key);
                     }
                 }
                 if let (Some(res), Some(after)) = (&obs.res, &obs.regs_after) {
@@ -457,7 +480,9 @@ pub fn run_history<H: ArchH>(rep: &mut Report, h: &Hist, hist_id: u64, all_gens:
                         format!("max_known_code_address = {got:#x}, expected {expect:#x}"), context_of(&lines, here), &ans);
                 }
             }
-            Op::Iter { u, pc, regs, mem, extra, max, .. } => {
+            Op::Iter { u, pc, regs, mem, extra, max, c } => {
+                // the walk's lookups are not tracked one by one
+                known_slot.retain(|k, _| k.0 != *c);
                 // C17: iterator (fresh cache, both interfaces) vs manual fold (fresh cache)
                 let manual = manual_fold::<H>(&w.unws[u], *pc, regs, mem, *extra, *max);
                 for via_trait in [false, true] {
